@@ -64,7 +64,8 @@ INNER_FNS = ["add_digits", "sub_digits", "compare_abs", "bignum_add", "bignum_su
              "fxrem", "normalize", "bignum_mul", "bignum_mul", "quot_rem", "quot_rem", "quot_rem", "num_add", "num_sub", "num_mul",
              "vm_add", "vm_sub", "num_quotient", "num_remainder", "vm_quotient", "vm_remainder", "num_quotient", "num_remainder",
              "bignum_expt", "write_bignum", "read_number", "num_compare", "num_compare", "bignum_sqrt",
-             "ratio_normalize", "ratio_normalize", "ratio_add", "ratio_mul", "ratio_div", "ratio_compare", "ratio_compare"]
+             "ratio_normalize", "ratio_normalize", "ratio_add", "ratio_mul", "ratio_div", "ratio_compare", "ratio_compare",
+             "ratio_sub", "ratio_round", "ratio_round", "ratio_trunc", "ratio_floor", "ratio_ceiling", "vm_mul"]
 
 
 def fixed_inner():
@@ -74,7 +75,7 @@ def fixed_inner():
     for x in crit:
         for y in crit:
             nx, ny = numstr(None, x, False), numstr(None, y, False)
-            for f in ("vm_quotient", "vm_remainder", "num_compare", "vm_add", "vm_sub", "num_mul"):
+            for f in ("vm_quotient", "vm_remainder", "num_compare", "vm_add", "vm_sub", "num_mul", "vm_mul"):
                 out.append("%s %s %s" % (f, nx, ny))
             if not (y == 0 and nx.startswith("f:")):
                 out.append("num_quotient %s %s" % (nx, ny))
@@ -165,7 +166,29 @@ def gen_inner(rng, pos, n):
                 if (nonzero or positive) and v == 0:
                     v = 7
                 return abs(v) if positive else v
-            if f == "ratio_normalize":
+            if f in ("ratio_round", "ratio_trunc", "ratio_floor", "ratio_ceiling", "ratio_sub"):
+                from fractions import Fraction
+
+                def red():       # a reduced fraction that is not an integer, as the C functions receive it
+                    while True:
+                        n_, d_ = rn(), rn(positive=True)
+                        r0 = rng.random()
+                        if r0 < 0.25:      # halves and near-halves: ties and 2r next to d
+                            d_ = rng.choice([2, 2, 4, (1 << 62) - 1, (1 << 61) + 1, (1 << 62) + 1, (1 << 64) + 1])
+                            n_ = rng.choice([1, -1, 3, -3, 5, -5, 7, -7, d_ // 2, -(d_ // 2), d_ // 2 + 1, -(d_ // 2) - 1, 3 * d_ + d_ // 2, -(1 << 61), (1 << 61), -(1 << 62)])
+                        elif r0 < 0.35:
+                            n_ = rng.choice([-(1 << 62), (1 << 62), -(1 << 61)])
+                            d_ = rng.choice([3, 5, 7, (1 << 61) + 1, (1 << 62) - 1, (1 << 62) + 1])
+                        fr = Fraction(n_, d_)
+                        if fr.denominator != 1:
+                            return fr.numerator, fr.denominator
+                n, dd = red()
+                if f == "ratio_sub":
+                    n2, d2 = red()
+                    reqs.append("ratio_sub %s %s %s %s" % (numstr(rng, n, False), numstr(rng, dd, False), numstr(rng, n2, False), numstr(rng, d2, False)))
+                else:
+                    reqs.append("%s %s %s" % (f, numstr(rng, n, False), numstr(rng, dd, False)))
+            elif f == "ratio_normalize":
                 n, dd = rn(), rn(nonzero=True)
                 if rng.random() < 0.4:
                     g = rn(nonzero=True)
@@ -220,10 +243,10 @@ def gen_inner(rng, pos, n):
                     x, y = y, x
             elif r < 0.6:
                 y = -x + rng.choice([0, 1, -1, FIXMAX, -FIXMAX - 1])
-            if f == "num_mul" and rng.random() < 0.25:
+            if f in ("num_mul", "vm_mul") and rng.random() < 0.25:
                 x, y = rng.choice(MULB)
                 x, y = x * rng.choice([1, -1]), y * rng.choice([1, -1])
-            if f == "num_mul" and max(abs(x), abs(y)).bit_length() > 1200:
+            if f in ("num_mul", "vm_mul") and max(abs(x), abs(y)).bit_length() > 1200:
                 y = rng.choice([3, -7, FIXMAX, 1 << 64, -(1 << 70) + 1])
             reqs.append("%s %s %s" % (f, numstr(rng, x), numstr(rng, y)))
     return reqs
@@ -333,9 +356,16 @@ def run(ctx):
                        "fed to the C digit functions and the extracted model, compared word for word; outer: operand tuples over the "
                        "boundary lattice x every operation through the Scheme API vs the extracted Z spec; a case is non-trivial when "
                        "at least one operand is a bignum (|x| >= 2^62) and distinct by (op, operands)")
+    d = ctx.build("default")
+    # (G) constants of the source tree -> coq/Gen/C04_Consts.v (checked against the models' literals by
+    # C04/ConstsCheck.v, theorem constants_match_source)
+    from gen import c04_consts
+    try:
+        ctx.cov["source_constants"] = c04_consts.regen(ctx, d)
+    except Exception as ex:
+        ctx.broken("gen:C04_Consts", "constants translator failed: %s" % ex)
     # (T) theorems
     ctx.coq_obligations("Properties_C04")
-    d = ctx.build("default")
     exe = ctx.extract("C04")
     if exe is None:
         return
@@ -494,6 +524,9 @@ def gen_outer(ctx, rng, lat, n_out):
                 if rng.random() < 0.25:
                     g = rng.choice([2, 3, 1 << 32, 1 << 64, (1 << 64) - 1])
                     n, dd = n * g, dd * g
+                elif rng.random() < 0.12:      # numerator = most negative fixnum after reduction; 2r next to d for round
+                    n = rng.choice([-(1 << 62), -(1 << 61), 1 << 62])
+                    dd = rng.choice([3, 5, 7, (1 << 61) + 1, (1 << 62) - 1, (1 << 62) + 1])
                 return n, dd
             n1, d1 = frac()
             if rng.random() < 0.6:
@@ -632,6 +665,12 @@ def _judge_inner(q, out):
             q = abs(x) // abs(y) * (1 if (x < 0) == (y < 0) else -1)
             e = q if f[0].endswith("quotient") else x - q * y
             return _num(out) == e and out.startswith("f:") == (-(1 << 62) <= e <= FIXMAX)
+        if f[0] in ("ratio_round", "ratio_trunc", "ratio_floor", "ratio_ceiling"):
+            from fractions import Fraction
+            import math
+            fr = Fraction(_num(f[1]), _num(f[2]))
+            e = (round(fr) if f[0] == "ratio_round" else math.trunc(fr) if f[0] == "ratio_trunc" else math.floor(fr) if f[0] == "ratio_floor" else math.ceil(fr))
+            return _num(out) == e and out.startswith("f:") == (-(1 << 62) <= e <= FIXMAX)
         if f[0].startswith("ratio_"):
             from fractions import Fraction
             v = [_num(x) for x in f[1:]]
@@ -639,6 +678,7 @@ def _judge_inner(q, out):
                 e = Fraction(v[0], v[1]) - Fraction(v[2], v[3])
                 return int(out) == (e > 0) - (e < 0)
             e = (Fraction(v[0], v[1]) if f[0] == "ratio_normalize" else Fraction(v[0], v[1]) + Fraction(v[2], v[3]) if f[0] == "ratio_add"
+                 else Fraction(v[0], v[1]) - Fraction(v[2], v[3]) if f[0] == "ratio_sub"
                  else Fraction(v[0], v[1]) * Fraction(v[2], v[3]) if f[0] == "ratio_mul" else Fraction(v[0], v[1]) / Fraction(v[2], v[3]))
             canon = lambda t, z: t.startswith("f:") == (-(1 << 62) <= z <= FIXMAX)
             if out.startswith("R "):
@@ -661,7 +701,7 @@ def _judge_inner(q, out):
         if f[0] == "read_number":
             e = int(f[2], int(f[1]))
             return _num(out) == e and out.startswith("f:") == (e <= FIXMAX)
-        if f[0] in ("num_add", "num_sub", "num_mul", "vm_add", "vm_sub"):
+        if f[0] in ("num_add", "num_sub", "num_mul", "vm_add", "vm_sub", "vm_mul"):
             x, y = _num(f[1]), _num(f[2])
             if f[0] == "num_sub" and f[1][0] == "f" and f[2][0] == "f" and not (-(1 << 62) <= x - y <= FIXMAX):
                 return True       # raw sexp_fx_sub outside its domain ("VM catches this case"): no claim
